@@ -20,6 +20,7 @@ from oslo_config import cfg
 from oslo_serialization import jsonutils
 import stevedore
 
+from oslo_policy import _parser
 from oslo_policy import policy
 
 LOG = logging.getLogger(__name__)
@@ -571,6 +572,11 @@ def generate_policy(args=None):
                      conf.exclude_deprecated)
 
 
+def _is_alias_of(value, name):
+    """Whether a rule value is nothing but a reference to policy ``name``."""
+    return str(_parser.parse_rule(value)) == 'rule:%s' % name
+
+
 def _upgrade_policies(policies, default_policies):
     old_policies = dict(policies)
     for section in sorted(default_policies.keys()):
@@ -581,8 +587,14 @@ def _upgrade_policies(policies, default_policies):
                 # NOTE: several new policies may share one deprecated
                 # policy, so the old value is kept until all are upgraded.
                 policies.pop(rule_default.deprecated_rule.name, None)
-                policies[rule_default.name] = old_policies[
-                    rule_default.deprecated_rule.name]
+                old_value = old_policies[rule_default.deprecated_rule.name]
+                if _is_alias_of(old_value, rule_default.name):
+                    # The override only points at the new policy (the alias
+                    # the sample file suggests for a deprecated name): the
+                    # new policy goes on deciding by itself. Moving the
+                    # value would make it refer to itself.
+                    continue
+                policies[rule_default.name] = old_value
                 LOG.info('The name of policy %(old_name)s has been upgraded to'
                          '%(new_name)',
                          {'old_name': rule_default.deprecated_rule.name,
